@@ -202,6 +202,62 @@ func mkBatch(fs []arrow.Field, cols []arrow.Array, rows int64) arrow.RecordBatch
 	return rb
 }
 
+// oddInput builds a well-formed stream input batch whose shape differs from the
+// declared exchange input schema (one int64 column "x").
+func oddInput(tp *simkern.Tape) (arrow.RecordBatch, string) {
+	x64 := func() (arrow.Field, arrow.Array) { return int64Col("x", []int64{7}) }
+	x32 := func() (arrow.Field, arrow.Array) {
+		b := hx.Int64Batch("x", []int64{7}, true)
+		return b.Schema().Field(0), b.Column(0)
+	}
+	str := func(name string) (arrow.Field, arrow.Array) {
+		b := hx.StringBatch([]string{name}, []string{"v"})
+		return b.Schema().Field(0), b.Column(0)
+	}
+	two := func(f1 arrow.Field, a1 arrow.Array, f2 arrow.Field, a2 arrow.Array) arrow.RecordBatch {
+		return mkBatch([]arrow.Field{f1, f2}, []arrow.Array{a1, a2}, 1)
+	}
+	switch tp.Draw(11) {
+	case 0:
+		return hx.StringBatch([]string{"x"}, []string{"nan"}), "x-as-string"
+	case 1:
+		return hx.Int64Batch("x", nil, false), "zero-rows"
+	case 2:
+		return hx.Int64Batch("y", []int64{1}, false), "renamed-column"
+	case 3:
+		return hx.EmptyBatch(), "no-columns"
+	case 4:
+		f1, a1 := x64()
+		f2, a2 := str("extra")
+		return two(f1, a1, f2, a2), "superset-extra-trailing-column"
+	case 5:
+		f1, a1 := str("extra")
+		f2, a2 := x64()
+		return two(f1, a1, f2, a2), "superset-extra-leading-column"
+	case 6:
+		f1, a1 := x32()
+		f2, a2 := str("extra")
+		return two(f1, a1, f2, a2), "castable-x-plus-extra-column"
+	case 7:
+		f1, a1 := x64()
+		f2, a2 := x64()
+		return two(f1, a1, f2, a2), "duplicate-column-name"
+	case 8:
+		f1, a1 := x64()
+		f2, a2 := int64Col("y", []int64{1})
+		f3, a3 := str("z")
+		return mkBatch([]arrow.Field{f1, f2, f3}, []arrow.Array{a1, a2, a3}, 1), "three-columns"
+	case 9:
+		f, a := binCol("x", [][]byte{{1, 2, 3}})
+		return mkBatch([]arrow.Field{f}, []arrow.Array{a}, 1), "x-as-binary"
+	default:
+		f, a := int64Col("x", []int64{1, 2, 3})
+		fn := f
+		fn.Nullable = !f.Nullable
+		return mkBatch([]arrow.Field{fn}, []arrow.Array{a}, 3), "nullability-flipped"
+	}
+}
+
 // structured builds a structurally valid request with an unexpected shape.
 func structured(tp *simkern.Tape, method string, nonce int64, segName string, segSize int) ([]byte, string) {
 	sc := (&hx.Script{Nonce: nonce, Outcome: "ok", Mode: "producer", Turns: []hx.Step{{Act: "emit"}}}).Encode()
@@ -357,7 +413,21 @@ func C03(e *simkern.Env) {
 				if tp.Bool(1, 2) {
 					canon, cname = streamBytes, "stream"
 				}
-				switch tp.Draw(6) {
+				switch tp.Draw(7) {
+				case 6:
+					// a valid exchange call whose input stream carries well-formed
+					// batches of an unexpected shape (first, or after a good input)
+					method := []string{"exch", "exch2", "dyn"}[tp.Draw(3)]
+					op := &pipew.Op{Kind: "stream", Method: method, Script: &hx.Script{Nonce: int64(3300 + k), Outcome: "ok", Mode: "exchange", Header: method != "exch2", Turns: []hx.Step{{Act: "emit"}, {Act: "emit"}}}, StreamKind: "exchange", HasHeader: method != "exch2", CancelAt: -1, ReqID: fmt.Sprintf("rq-33%d", k), Inputs: 2}
+					odd, shape := oddInput(tp)
+					m := append([]byte(nil), pipew.RequestBytes(op)...)
+					if tp.Bool(1, 2) {
+						g := hx.Int64Batch("x", []int64{1}, false)
+						m = append(m, hx.EncodeStream(g.Schema(), g)...) // NB: a second input stream is what a confused client sends
+					}
+					m = append(m, hx.EncodeStream(odd.Schema(), odd)...)
+					payload, what, site = m, method+" exchange with input "+shape, "pipe:stream-input/"+shape
+					sim.Fault("stream-input-shape")
 				case 0:
 					cut := tp.Draw(len(canon))
 					payload, what, site = canon[:cut], fmt.Sprintf("%s truncated at %d", cname, cut), "pipe:"+cname+"/truncate"
@@ -477,21 +547,11 @@ func C03(e *simkern.Env) {
 					case 3:
 						// continuation with odd shapes
 						m := hx.M(hx.KState, tk.Cursor, hx.KCallState, tk.Call)
-						var b arrow.RecordBatch
-						switch tp.Draw(4) {
-						case 0:
-							b = hx.StringBatch([]string{"x"}, []string{"nan"})
-						case 1:
-							b = hx.Int64Batch("x", nil, false)
-						case 2:
-							b = hx.Int64Batch("y", []int64{1}, false)
-						default:
-							b = hx.EmptyBatch()
-						}
+						b, shape := oddInput(tp)
 						if tp.Bool(1, 2) {
 							m = m.Add(hx.KLocation, "https://nowhere.sim/z")
 						}
-						body, what = hx.RawRequestBytes(b, m), "continuation with an unexpected input shape"
+						body, what = hx.RawRequestBytes(b, m), "continuation with input "+shape
 						sim.Fault("http-continuation-shape")
 					default:
 						what = "valid body on this route"
@@ -535,12 +595,12 @@ func init() {
 	Registry["C03"] = &Info{
 		Run:   C03,
 		Level: "fault_enumeration",
-		Rule:  "the adversary is the network/client: one run in sixteen is a complete sweep of every truncation offset and every single-byte flip (xor 0xFF) within the alterable zones (see Assumptions) of one canonical unary request and one canonical stream call (request + input stream) on a simulated pipe, and of every truncation offset of a unary, a stream-init and a continuation body over HTTP; the other runs draw 4-13 adversarial connections (truncation, 1-4 altered bytes, whole messages duplicated/spliced, trailing garbage, and structurally valid requests with unexpected shapes: zero-row batches carrying location or shm-pointer keys with and without an advertised segment, malformed offsets/lengths, unknown segments, `request` columns with garbage / foreign inner schema / zero-row inner batch / null, many rows, no columns, invalid UTF-8 method, framework keys on requests, describe/transport-options with pointer keys) and 6-15 HTTP requests of the same families plus continuation bodies of unexpected shape on every stream method's route; after adversarial connections a fresh connection must serve a valid call; distinct = schedule fingerprint (includes the mutation choices)",
+		Rule:  "the adversary is the network/client: one run in sixteen is a complete sweep of every truncation offset and every single-byte flip (xor 0xFF) within the alterable zones (see Assumptions) of one canonical unary request and one canonical stream call (request + input stream) on a simulated pipe, and of every truncation offset of a unary, a stream-init and a continuation body over HTTP; the other runs draw 4-13 adversarial connections (truncation, 1-4 altered bytes, whole messages duplicated/spliced, trailing garbage, and structurally valid requests with unexpected shapes: zero-row batches carrying location or shm-pointer keys with and without an advertised segment, malformed offsets/lengths, unknown segments, `request` columns with garbage / foreign inner schema / zero-row inner batch / null, many rows, no columns, invalid UTF-8 method, framework keys on requests, describe/transport-options with pointer keys; and valid exchange calls whose input stream carries a well-formed batch of an unexpected shape: string/binary/renamed/zero-row/no column, a superset of the declared schema with the extra column first or last, a castable column plus an extra one, duplicate column names, three columns, flipped nullability) and 6-15 HTTP requests of the same families plus continuation bodies of the same unexpected input shapes on every stream method's route; after adversarial connections a fresh connection must serve a valid call; distinct = schedule fingerprint (includes the mutation choices)",
 		Real:  []string{"vgirpc.Server.ServeWithContext / serveOne / ReadRequest / deserializeParams / shm attach+resolve, HttpServer.ServeHTTP on unary, init and exchange routes", "arrow-go IPC reader (reached through the server)"},
 		Stub:  []string{"duplex byte stream with half-close", "adversary", "net/http-style panic capture around ServeHTTP"},
 		Quick: 400, Thorough: 40000,
 		Warm: c36Warm,
-		FaultKinds: []string{"truncate", "flip", "splice", "trailing", "structured", "sweep-truncate", "sweep-flip", "http-truncate", "http-flip", "http-structured", "http-continuation-shape", "http-sweep-truncate"},
+		FaultKinds: []string{"truncate", "flip", "splice", "trailing", "structured", "stream-input-shape", "sweep-truncate", "sweep-flip", "http-truncate", "http-flip", "http-structured", "http-continuation-shape", "http-sweep-truncate"},
 		Assumptions: []string{"byte alterations are confined to record-batch bodies, message length prefixes and the contents of custom-metadata strings, and alterations that make a length prefix or declared body length exceed 1 MiB are not sent: arrow-go sizes allocations from the lengths and flatbuffer vector lengths it reads (a flipped Schema.fields length made it request 376 GB and the Go runtime killed the worker with 'fatal error: out of memory', which no in-process harness can observe and survive — recorded in DESIGN.md as a finding outside the explored space); the number skipped is reported as a probe", "the adversary half-closes after writing, so a server blocked waiting for more bytes is not counted as a hang"},
 		Exhaustive: false,
 	}
